@@ -14,8 +14,11 @@ func FindVertexHasLabelStart(pipe []*gripql.GraphStatement) ([]string, []*gripql
 			break
 		}
 		if i == 0 {
-			if _, ok := step.GetStatement().(*gripql.GraphStatement_V); ok {
-				//lookupV = lv
+			if v, ok := step.GetStatement().(*gripql.GraphStatement_V); ok {
+				// V(ids) already names its vertices: a label scan would ignore the ids
+				if v.V != nil && len(v.V.Values) > 0 {
+					break
+				}
 			} else {
 				break
 			}
@@ -23,8 +26,10 @@ func FindVertexHasLabelStart(pipe []*gripql.GraphStatement) ([]string, []*gripql
 		}
 		switch s := step.GetStatement().(type) {
 		case *gripql.GraphStatement_HasLabel:
+			// only the first hasLabel becomes the scan; further ones stay filters
 			labels = protoutil.AsStringList(s.HasLabel)
 			hasLabelLen = i + 1
+			isDone = true
 		default:
 			isDone = true
 		}
@@ -41,7 +46,10 @@ func FindEdgeHasLabelStart(pipe []*gripql.GraphStatement) ([]string, []*gripql.G
 			break
 		}
 		if i == 0 {
-			if _, ok := step.GetStatement().(*gripql.GraphStatement_E); ok {
+			if e, ok := step.GetStatement().(*gripql.GraphStatement_E); ok {
+				if e.E != nil && len(e.E.Values) > 0 {
+					break
+				}
 			} else {
 				break
 			}
@@ -51,6 +59,7 @@ func FindEdgeHasLabelStart(pipe []*gripql.GraphStatement) ([]string, []*gripql.G
 		case *gripql.GraphStatement_HasLabel:
 			labels = protoutil.AsStringList(s.HasLabel)
 			hasLabelLen = i + 1
+			isDone = true
 		default:
 			isDone = true
 		}
